@@ -910,6 +910,16 @@ func (e *Enc) special(fr *Frame, st *State, full string, callee *ssa.Function, a
 
 func (e *Enc) lockOp(st *State, m string, v string, acquire bool) *Val {
 	h := e.comp(st, "L:held", "(Array Int Int)")
+	if acquire {
+		// partial correctness: Lock returns only once the mutex has been acquired, which in a
+		// sequential execution means it was free (a writer) or not write-locked (a reader) when
+		// the call was made; a path on which it is not never gets past this point
+		if v == "2" {
+			e.assume(st, fmt.Sprintf("(= (select %s %s) 0)", h, m))
+		} else {
+			e.assume(st, fmt.Sprintf("(not (= (select %s %s) 2))", h, m))
+		}
+	}
 	e.setComp(st, "L:held", "(Array Int Int)", sto(h, m, v))
 	return unitVal()
 }
